@@ -116,7 +116,7 @@ func genObject(t string, depth int, g *prng.R, vs vocabSet, top bool) map[string
 		genMember(m, t, p, depth, g, vs)
 	}
 	for i, n := 0, g.Intn(3); i < n; i++ {
-		m[fmt.Sprintf("x-ext-%d", g.Intn(5))] = genUnknown(g, 2)
+		m[unknownKey(g)] = genUnknown(g, 2)
 	}
 	// members that are properties of OTHER types are unknown members here
 	if g.Chance(1, 3) {
@@ -183,6 +183,20 @@ func genMember(m map[string]interface{}, t, p string, depth int, g *prng.R, vs v
 	m[pr.Name] = list
 }
 
+// unknownKey draws the name of an unknown member: extension-style names,
+// JSON-LD keywords other than @context (a document may carry them; they are
+// members like any other for the decoder), prefixed and non-ASCII names.
+func unknownKey(g *prng.R) string {
+	switch g.Intn(6) {
+	case 0:
+		return g.Str("@id", "@type", "@language", "@reverse", "@graph", "@vocab", "@x")
+	case 1:
+		return g.Str("ex:prefixed", "schema:name", "_:b0", "x.dotted", "x spaced", "$ref", "ключ", "X-UPPER", "-", "0")
+	default:
+		return fmt.Sprintf("x-ext-%d", g.Intn(5))
+	}
+}
+
 // genUnknown renders an arbitrary JSON value for an unknown member.
 func genUnknown(g *prng.R, depth int) interface{} {
 	switch g.Intn(8) {
@@ -210,7 +224,7 @@ func genUnknown(g *prng.R, depth int) interface{} {
 		}
 		o := map[string]interface{}{}
 		for i, n := 0, g.Intn(3); i < n; i++ {
-			o[g.Str("a", "b", "type", "id", "name")] = genUnknown(g, depth-1)
+			o[g.Str("a", "b", "type", "id", "name", "@id", "@value", "@language")] = genUnknown(g, depth-1)
 		}
 		return o
 	case 6:
